@@ -159,7 +159,7 @@ def check_interrupt(facts):
         else:
             findings.append({"props": ["C06", "C10"], "key": "interrupt entry|mem-count", "form": "interrupt entry", "aspect": "mem-count",
                              "msg": "interrupt entry performs %d byte accesses, manual: %d" % (len(cm), len(sem.mem)), "witness": None, "detail": {}})
-    return {"findings": findings, "ob": ob, "ok_traces": nok, "traces": len(outs)}
+    return {"findings": findings, "ob": ob, "ok_traces": nok, "traces": len(outs), "cost_sites": I.cost_sites}
 
 
 # (name suffix, operand address width, size in bytes, 'r'/'w')
